@@ -495,6 +495,7 @@ def check(run: Run) -> None:
     run.rule("R02.5", "escape-on-read is the inverse of escape-on-write: the lexer's STRING decoder undoes exactly the emitter's escape chain, on every character", 2)
     run.rule("R02.5b", "all copies of the emitter's escape chain are identical", 1)
     c04.check_escape_inverse(run, "R02.5", "R02.5b")
+    c04.check_number_spelling(run, "R02.11")
     check_child_loops(run)
     from . import c05
     c05.check_prepass_protection(run, "R02.7")
